@@ -297,6 +297,12 @@ fn eval_sc(case: &Case) -> Verdict {
             v.detail["missing"] = serde_json::json!(missing.iter().map(|o| fmt_outcome(o)).collect::<Vec<_>>());
             return v.fail("missing_outcome", format!("an exit outcome of the do-while loop is never explored: {}; {} of {} missing", fmt_outcome(m), missing.len(), r.robust_outcomes.len()));
         }
+        if let Some(m) = r.outcomes.iter().find(|x| !l.contains(*x)) {
+            return v.fail(
+                "missing_outcome_yield_placement",
+                format!("an exit outcome of the do-while loop is never explored, and every execution producing it places the yielding thread between two operations of the writer that it does not conflict with: {}", fmt_outcome(m)),
+            );
+        }
     }
     v
 }
